@@ -73,8 +73,11 @@ def build_cases(tier):
     # ---- arithmetic width is the one of the type argument, for all operand values
     for t in ['int8', 'uint8', 'int16', 'uint16', 'int32', 'uint32', 'int'] + (['uint'] if tier == 'thorough' else []):
         nd = gospec.NONDET[t]
-        C.append(T('width_%s' % t, NUM, 'x := Nondet%s(0)\ny := Nondet%s(1)\nn := NondetUint8(2)\nprintln("r", add(x, y), mul(x, y), neg(x), shl(x, n&7), add[%s](x, 1))' % (nd, nd, t),
-                   lambda inp, t=t: ok([('r', [W(t, '(+ in_0 in_1)'), W(t, '(* in_0 in_1)'), W(t, '(- in_0)'), W(t, '(* in_0 (go_p2 (mod in_2 8)))'), W(t, '(+ in_0 1)')])])))
+        # 32-bit unsigned products are the $imul kernel, decided in C06 with limb-declared inputs; here a constant factor keeps the query linear
+        mulx = 'mul(x, y)' if t not in ('uint32', 'uint') else 'mul(x, 65537)'
+        mulr = '(* in_0 in_1)' if t not in ('uint32', 'uint') else '(* in_0 65537)'
+        C.append(T('width_%s' % t, NUM, 'x := Nondet%s(0)\ny := Nondet%s(1)\nn := NondetUint8(2)\nprintln("r", add(x, y), %s, neg(x), shl(x, n&7), add[%s](x, 1))' % (nd, nd, mulx, t),
+                   lambda inp, t=t, mulr=mulr: ok([('r', [W(t, '(+ in_0 in_1)'), W(t, mulr), W(t, '(- in_0)'), W(t, '(* in_0 (go_p2 (mod in_2 8)))'), W(t, '(+ in_0 1)')])])))
     C.append(T('width_named', NUM + 'type celsius int8\ntype word uint16\n', 'x := celsius(NondetInt8(0))\ny := word(NondetUint16(1))\nprintln("r", add(x, 100), mul(y, 257), int(neg(x)), uint16(neg(y)))',
                lambda inp: ok([('r', [W('int8', '(+ in_0 100)'), W('uint16', '(* in_1 257)'), W('int8', '(- in_0)'), W('uint16', '(- in_1)')])])))
     C.append(T('width_64', NUM, 'x := NondetInt64(0)\ny := NondetUint64(1)\nVerifOutI64("a", add(x, 1))\nVerifOutU64("b", add(y, y))\nVerifOutI64("c", neg(x))',
